@@ -39,18 +39,13 @@ func From8Bit(v uint8) float32 {
 //
 // This implementation uses a fast look-up table without sacrificing accuracy.
 func From16Bit(v uint16) float32 {
-	if encoded16ToLinearLUT != nil {
-		return encoded16ToLinearLUT[v]
-	}
-	return from16BitAndInitLUT(v)
+	initFrom16BitLUTOnce.Do(initFrom16BitLUT)
+	return encoded16ToLinearLUT[v]
 }
 
-func from16BitAndInitLUT(v uint16) float32 {
-	initFrom16BitLUTOnce.Do(func() {
-		from16BitLUT := lut.Build16BitToLinear(encodedToLinear)
-		encoded16ToLinearLUT = from16BitLUT[:]
-	})
-	return encoded16ToLinearLUT[v]
+func initFrom16BitLUT() {
+	from16BitLUT := lut.Build16BitToLinear(encodedToLinear)
+	encoded16ToLinearLUT = from16BitLUT[:]
 }
 
 // To8Bit converts a linear value to an 8-bit Adobe RGB encoded value, clipping
@@ -68,16 +63,11 @@ func To8Bit(v float32) uint8 {
 // This implementation uses a fast look-up table and is approximate. For more
 // accuracy, see ConvertLinearTo16Bit.
 func To16Bit(v float32) uint16 {
-	if linearToEncoded16LUT != nil {
-		return linearToEncoded16LUT[linear.NormalisedTo16Bit(v)]
-	}
-	return to16BitAndInitLUT(v)
+	initTo16BitLUTOnce.Do(initTo16BitLUT)
+	return linearToEncoded16LUT[linear.NormalisedTo16Bit(v)]
 }
 
-func to16BitAndInitLUT(v float32) uint16 {
-	initTo16BitLUTOnce.Do(func() {
-		to16BitLUT := lut.BuildLinearTo16Bit(linearToEncoded)
-		linearToEncoded16LUT = to16BitLUT[:]
-	})
-	return linearToEncoded16LUT[linear.NormalisedTo16Bit(v)]
+func initTo16BitLUT() {
+	to16BitLUT := lut.BuildLinearTo16Bit(linearToEncoded)
+	linearToEncoded16LUT = to16BitLUT[:]
 }
